@@ -287,6 +287,10 @@ def configs(thorough, seed):
                     kk['factor_dtype'] = fdt
                 if not pre and k > 1 and i % 3 == 0:
                     kk['colocate_factors'] = False
+                if i % 5 == 0:
+                    # "no clipping" is a scalar that must be restored too
+                    # (the fresh object is built with a non-None value)
+                    kk['kl_clip'] = None
                 out.append({'model': model, 'dtype': 'f32', 'batch': 2,
                             'world': world, 'seed': seed, 'kfac': kk,
                             'ckpt_perturb': True})
